@@ -160,8 +160,10 @@ def norm_text(c, custom_syntax, label_spawnflags=True):
                         v[-1] = []
             else:
                 kv['disp'] = txt(kv['disp'])
+            kv['default'] = txt(kv['default'])
             if kv['type'] == 'VT:CHOICES':
                 for v in kv['vals'] or []:
+                    v[0] = txt(v[0])
                     v[1] = plain_readback(v[1].replace('\n', ' '))
                     if not ext:
                         v[-1] = []
@@ -429,6 +431,8 @@ def plain_default(rng):
         return str(rng.randrange(-50, 5000))
     if r < 0.6:
         return rng.choice(['0.5', '-1.25', '1e5', '255 255 255', '0 0 0', '--', '-', '1-2'])
+    if r < 0.75:
+        return free_text(rng, rng.randrange(1, 14), nasty=0.4)
     return ''.join(rng.choice(string.ascii_letters + string.digits + " .-_/'?*!@#$%^&()[]{}:;,<>|~`+=") for _ in range(rng.randrange(1, 14)))
 
 
@@ -469,7 +473,8 @@ def gen_kv(rng, name, opts):
     if typ is ValueTypes.CHOICES:
         vals, seen = [], set()
         for _ in range(rng.randrange(0, 6)):
-            v = rng.choice([str(rng.randrange(-3, 40)), '0.5', ident(rng), 'a b', '', '1e3', "it's"])
+            v = rng.choice([str(rng.randrange(-3, 40)), '0.5', ident(rng), 'a b', '', '1e3', "it's", '+1', ' 1', '1_0', '-.5', 'inf',
+                            free_text(rng, rng.randrange(1, 8), nasty=0.5)])
             if v in seen:
                 continue
             seen.add(v)
